@@ -20,6 +20,7 @@ type c10Cfg struct {
 	Keys    int   `json:"keys"`
 	MaxL    int   `json:"max_len"`
 	GapMs   int64 `json:"gap_ms,omitempty"` // the second half of the arrivals (and the sentinel) lies this much later in event time
+	Base    int64 `json:"epoch_base_ms,omitempty"`   // timestamps of a present-day epoch (Base + t - 10000), handed over as float64
 	Block   bool  `json:"block_slow_consumer,omitempty"` // strategy block without timeout, window output buffer of 1, sink taking 20 ms per batch
 }
 
@@ -48,6 +49,8 @@ func c10Configs(tier string) []c10Cfg {
 		}
 	}
 	out = append(out, c10Cfg{Timeout: 2000, OOOMs: 0, Keys: 2, MaxL: maxL - 1, Block: true})
+	// present-day epoch, float64 timestamps (what a JSON decoder hands over); tolerance not a multiple of 4 ms
+	out = append(out, c10Cfg{Timeout: 2000, OOOMs: 0, Keys: 1, MaxL: maxL, Base: 1700000000251}, c10Cfg{Timeout: 2000, OOOMs: 2501, Keys: 2, MaxL: maxL - 1, Base: 1700000000251})
 	// a source that stays silent for more than a day of event time (all of it far behind the clock)
 	out = append(out, c10Cfg{Timeout: 2000, OOOMs: 0, Keys: 2, MaxL: maxL - 1, GapMs: 36 * 3600 * 1000}, c10Cfg{Timeout: 2000, OOOMs: 3000, Keys: 1, MaxL: maxL, GapMs: 36 * 3600 * 1000})
 	return out
@@ -76,13 +79,40 @@ func c10Events(c c10Cfg, tsIdx []int, keyBits int) []ref.Event {
 			k = "b"
 		}
 		ts := c10Times[x]
+		if c.Base > 0 {
+			ts += c.Base - 10000
+		}
 		if c.GapMs > 0 && i >= (len(tsIdx)+1)/2 {
 			ts += c.GapMs
 		}
 		evs = append(evs, ref.Event{ID: i + 1, Key: k, TS: ts})
 	}
-	evs = append(evs, ref.Event{ID: 99, Key: "zz", TS: 500000 + c.GapMs})
+	sent := int64(500000) + c.GapMs
+	if c.Base > 0 {
+		sent += c.Base
+	}
+	evs = append(evs, ref.Event{ID: 99, Key: "zz", TS: sent})
 	return evs
+}
+
+// c10Ms: window_start()/window_end() are nanoseconds; a bound that is not a whole millisecond cannot be an event
+// timestamp (+ timeout) of these inputs and is mapped to an impossible value, so that the bounds monitors report it.
+func c10Ms(v any) int64 {
+	var ns int64
+	switch x := v.(type) {
+	case int64:
+		ns = x
+	case int:
+		ns = int64(x)
+	case float64:
+		ns = int64(x)
+	default:
+		return -1
+	}
+	if ns%1000000 != 0 {
+		return -ns
+	}
+	return ns / 1000000
 }
 
 func c10Deliveries(r detResult) []c10Delivery {
@@ -92,7 +122,9 @@ func c10Deliveries(r detResult) []c10Delivery {
 			ws, _ := num(row["ws"])
 			we, _ := num(row["we"])
 			k, _ := row["k"].(string)
-			out = append(out, c10Delivery{Key: k, WS: int64(ws) / 1000000, WE: int64(we) / 1000000, IDs: sortedInts(idList(row["ids"])), AtOps: r.AtOps[bi]})
+			d := c10Delivery{Key: k, WS: c10Ms(row["ws"]), WE: c10Ms(row["we"]), IDs: sortedInts(idList(row["ids"])), AtOps: r.AtOps[bi]}
+			_, _ = ws, we
+			out = append(out, d)
 		}
 	}
 	return out
@@ -299,6 +331,10 @@ func (c10) Run(u fw.Unit) fw.Result {
 				evs := c10Events(c, seq, kb<<1)
 				feed := func(e *Env) {
 					for _, ev := range evs {
+						if c.Base > 0 {
+							e.Emit(Row{"id": ev.ID, "k": ev.Key, "ts": float64(ev.TS)})
+							continue
+						}
 						e.Emit(Row{"id": ev.ID, "k": ev.Key, "ts": ev.TS})
 					}
 				}
